@@ -78,7 +78,7 @@ fn synth_source(rng: &mut Rng) -> Source {
     let blocks = *rng.pick(&[40u64, 48, 64]);
     let mut image = indep::fresh_image(version, blocks);
     let val = |rng: &mut Rng, k: &[u8], n: u32| values::make(Tag { key_id: kid(k), writer: 1, seq: n }, *rng.pick(&[30usize, 300, 4070, 6000]));
-    let class: &'static str;
+    let mut class: &'static str;
     let mut allow_legacy = false;
     match rng.below(9) {
         0 => {
@@ -141,6 +141,7 @@ fn synth_source(rng: &mut Rng) -> Source {
             match rng.below(3) {
                 0 => {
                     // record head with a non-zero token on a legacy device: fatal
+                    class = "synth-damaged-head";
                     let k2 = b"b".to_vec();
                     let mut r = indep::encode_record(version, &k2, b"zzzz", 42, 0, 20);
                     r[2] = 7;
@@ -152,6 +153,7 @@ fn synth_source(rng: &mut Rng) -> Source {
                 }
                 _ => {
                     // new-style marker with a wrong token
+                    class = "synth-damaged-marker";
                     let mut m = indep::encode_marker(22, 1, 1);
                     m[16] ^= 0xff;
                     place(&mut image, 22, &m);
@@ -332,7 +334,7 @@ fn one(report: &mut Report, seed: u64, n: u64, root: &str, cli: Option<&str>) {
         }
         // which failures are expected?
         match (&expected, src.class) {
-            (_, "synth-v3-source") | (_, "synth-v1-key-too-large-for-v3") | (_, "synth-damaged") => {}
+            (_, "synth-v3-source") | (_, "synth-v1-key-too-large-for-v3") | (_, "synth-damaged") | (_, "synth-damaged-head") | (_, "synth-damaged-marker") => {}
             (_, "synth-ambiguous-marker") if !src.allow_legacy => {}
             _ if precreate => {}
             (Ok(_), _) => {
@@ -355,6 +357,9 @@ fn one(report: &mut Report, seed: u64, n: u64, root: &str, cli: Option<&str>) {
     want.dedup();
     if after_list != want {
         report.violation("migrate:stray-files", format!("{}: after a successful migration the directory holds {after_list:?} (expected {want:?})", src.class), replay.clone());
+    }
+    if src.class == "synth-damaged-head" || src.class == "synth-damaged-marker" {
+        report.violation("migrate:damaged-source-accepted", format!("{}: a legacy source with a damaged record head / a marker whose token does not match was migrated (report: {report_counts:?}) instead of being refused", src.class), replay.clone());
     }
     if src.class == "synth-ambiguous-marker" && !src.allow_legacy {
         report.violation("migrate:ambiguous-accepted", "ambiguous legacy marker accepted without the opt-in".to_string(), replay.clone());
